@@ -118,6 +118,26 @@ def run_one(driver, case):
         res = Res(nontrivial=True, outcome='timeout')
         res.violate('termination', 'timeout',
                     'case exceeded %.1fs CPU' % budget)
+    except HarnessFault:
+        raise
+    except Exception as exc:
+        # an exception that the driver did not expect.  If it was raised
+        # *inside the library under test* (innermost frame in $VERIF_SRC)
+        # the library deviates from everything the unchanged tree does in
+        # this case: a violation with the traceback as evidence.  If it was
+        # raised by harness code it stays a harness fault.
+        tb = exc.__traceback__
+        while tb.tb_next is not None:
+            tb = tb.tb_next
+        fn = tb.tb_frame.f_code.co_filename
+        src = os.path.realpath(os.environ.get('VERIF_SRC', '/repo/src'))
+        if not os.path.realpath(fn).startswith(src + os.sep):
+            raise
+        res = Res(nontrivial=True, outcome='impl-exception')
+        res.violate('no-unexpected-exception', 'impl-exception:%s@%s.%s' % (
+            type(exc).__name__, os.path.basename(fn)[:-3],
+            tb.tb_frame.f_code.co_name),
+            {'traceback': traceback.format_exc()[-1200:]})
     return res
 
 
